@@ -405,7 +405,7 @@ def run_inproc(case):
                 raise Bad("first_frame_not_start", f"{kind}: first order {ops[0]} != start {start_want}", site=kind)
             outcome = "ok"
             if scn["retrace"] and kind in ("turtle_vv", "ase_vv") and not scn["reverse"] and path.length >= 3:
-                j = (1 + k.choose("retrace_from", path.length - 1)) % path.length     # frame 0 included
+                j = (1 + k.choose("retrace_from", path.length)) % path.length        # frame 0 included
                 back = Path(maxlen=j + 2)
                 ok2, _ = eng.propagate(back, ens, path.phasepoints[j].copy(), reverse=True)
                 bops = check(back, ok2, True, "backward run")
